@@ -99,6 +99,33 @@ pub fn start_watchdog(report_path: String, op_limit: Duration, rss_limit_kb: u64
     });
 }
 
+/// CPU seconds (user + system) this process has used so far.
+pub fn cpu_seconds() -> f64 {
+    let Ok(stat) = std::fs::read_to_string("/proc/self/stat") else { return 0.0 };
+    let Some(i) = stat.rfind(')') else { return 0.0 };
+    let f: Vec<&str> = stat[i + 2..].split_whitespace().collect();
+    let ticks = f.get(11).and_then(|x| x.parse::<u64>().ok()).unwrap_or(0) + f.get(12).and_then(|x| x.parse::<u64>().ok()).unwrap_or(0);
+    ticks as f64 / 100.0
+}
+
+/// Watchdog of a process that runs ONE operation alone (the confirmation step).  The verdict must not depend on the
+/// wall clock - a stalled machine proves nothing -, so the operation counts as not coming back when this process has
+/// *used* `cpu_limit` seconds of CPU time (a decode needs micro- to milliseconds) or grown beyond `rss_limit_kb`.
+pub fn start_watchdog_alone(report_path: String, cpu_limit: Duration, rss_limit_kb: u64) {
+    std::thread::spawn(move || loop {
+        std::thread::sleep(Duration::from_millis(50));
+        let rss = rss_kb();
+        let cpu = cpu_seconds();
+        if rss > rss_limit_kb || cpu > cpu_limit.as_secs_f64() {
+            let reason = if rss > rss_limit_kb { format!("resident set {} MiB exceeds the budget of {} MiB", rss / 1024, rss_limit_kb / 1024) } else { format!("{cpu:.0} s of CPU time used without returning") };
+            let ops = in_flight();
+            let j = serde_json::json!({"reason": reason, "rss_kb": rss, "cpu_s": cpu, "ops": ops.iter().map(|o| serde_json::json!({"kind": o.0, "type": o.1, "bytes": crate::hex(&o.2), "running_s": o.3})).collect::<Vec<_>>()});
+            let _ = std::fs::write(&report_path, j.to_string());
+            std::process::exit(EXIT_RUNAWAY);
+        }
+    });
+}
+
 /// A system under test whose operations are registered with the runaway monitor.
 pub struct Watched<S: Sut>(pub S);
 
